@@ -38,8 +38,11 @@ def main(argv=None):
     try:
         ctx = core.Ctx()
         mod.run(ctx, rep, a.tier)
-        if a.tier == "thorough" and hasattr(mod, "run_thorough"):
-            mod.run_thorough(ctx, rep)
+        if a.tier == "thorough":
+            if hasattr(mod, "run_thorough"):
+                mod.run_thorough(ctx, rep)
+            from . import thorough
+            thorough.run(pid, rep)
         return rep.finish(ctx, mod.EXPLANATION, getattr(mod, "ASSUMPTIONS", core_assumptions()), getattr(mod, "DECLINED", ()))
     except AnalysisBroken as e:
         return core.broken(pid, a.tier, str(e), seed)
